@@ -233,11 +233,13 @@ func runCheck(args []string) int {
 	solverTime := 0.0
 	for _, r := range results {
 		if r.Err != "" {
-			if strings.HasPrefix(r.Err, "STALE-CONTRACT") {
+			if strings.HasPrefix(r.Err, "STALE-CONTRACT") && !strings.Contains(r.Err, "cut line") {
 				fmt.Println(r.Err)
 				return 2
 			}
-			if strings.HasPrefix(r.Err, "outside-subset") && p.cs.Funcs[r.Name] != nil && !strings.HasPrefix(r.Name, "lemma") {
+			// (a cut whose anchor statement was rewritten is treated like an outside-subset rewrite: the function's
+			// obligations cannot be generated, none is discharged, the replay search still runs)
+			if (strings.HasPrefix(r.Err, "outside-subset") || strings.HasPrefix(r.Err, "STALE-CONTRACT")) && p.cs.Funcs[r.Name] != nil && !strings.HasPrefix(r.Name, "lemma") {
 				// a function under contract was rewritten with a construct the generator does not model: its
 				// obligations can no longer be generated, so none of them is discharged. Reported as one
 				// undischarged obligation (the replay search still runs the real function against the contract).
